@@ -153,6 +153,19 @@ def generate(tier, rng):
             continue
         scalar = rng.random() < 0.5
         yield _line(signed, n, f, r, 'saturate', 'pyfloat' if scalar else 'arr.float64', rng.choice(C.ROUTES if scalar else ('ctor', 'call', 'setval')), [v] if scalar else [v, -v])
+        # a huge element next to ordinary fractional ones in the same container: every element is still rounded by the configured rule
+        small = []
+        for _ in range(rng.choice([1, 2, 3])):
+            x = G.rand_scaled(rng, signed, n)
+            w = x / Fraction(2) ** f
+            if G.in_c01_domain(n, f, w) and is_exact_float(w):
+                small.append(w)
+        if small:
+            vals = small + [v]
+            rng.shuffle(vals)
+            car = rng.choice(['arr.float64', 'list', 'tuple'])
+            if C.ok_for(car, vals):
+                yield _line(signed, n, f, r, 'saturate', car, rng.choice(('ctor', 'call', 'setval')), vals)
     # complex inputs
     for _ in range(400 if tier == 'quick' else 8000):
         signed, n, f = G.rand_format(rng, max_word=40, fextra=4)
